@@ -1,7 +1,8 @@
 (* C06 — proofs: collects the proof files. *)
 From Yv Require Export Common.Base C06.Model C06.Spec.
 From Yv Require Export C06.LexEq C06.ParseEq C06.ProofsLen C06.ProofsFuel C06.ProofsStop
-  C06.ProofsTok C06.ProofsParse.
+  C06.ProofsTok C06.ProofsParse C06.ProofsTilde C06.ProofsNum C06.ProofsEscape C06.ProofsRtBase
+  C06.ProofsRt.
 
 Lemma oracle_accepts_errors : forall s, oracle PErr s = None.
 Proof. reflexivity. Qed.
